@@ -30,7 +30,8 @@ def main(argv):
     if argv:
         seeds = [s for s in seeds if s in argv]
     results = {}
-    for s in seeds:
+
+    def one(s):
         meta = {}
         mp = os.path.join(VERIF, "seeded", s, "meta.json")
         if os.path.exists(mp):
@@ -41,11 +42,9 @@ def main(argv):
             r = subprocess.run(["git", "apply", "--unsafe-paths", "--directory", tmp, os.path.join(VERIF, "seeded", s, "patch.diff")],
                                cwd=tmp, capture_output=True, text=True)
             if r.returncode != 0:
-                # fall back to patch(1)
                 r = subprocess.run(["patch", "-p1", "-d", tmp, "-i", os.path.join(VERIF, "seeded", s, "patch.diff")], capture_output=True, text=True)
             if r.returncode != 0:
-                results[s] = {"error": "patch does not apply: " + (r.stderr or r.stdout)[-200:]}
-                continue
+                return s, {"error": "patch does not apply: " + (r.stderr or r.stdout)[-200:]}
             fired = {}
             for pid in props:
                 ev = os.path.join(tmp, "ev")
@@ -53,9 +52,13 @@ def main(argv):
                 if rr.returncode != 0:
                     lines = [l for l in rr.stdout.splitlines() if l.startswith("FINDING") or l.startswith("ANALYSIS-ERROR")]
                     fired[pid] = {"rc": rr.returncode, "findings": [l[:260] for l in lines[:4]]}
-            results[s] = {"property": meta.get("property"), "fired": fired}
+            return s, {"property": meta.get("property"), "fired": fired}
         finally:
             shutil.rmtree(tmp, ignore_errors=True)
+    from concurrent.futures import ThreadPoolExecutor
+    with ThreadPoolExecutor(int(os.environ.get("VERIF_JOBS", "10"))) as ex:
+        for s, r in ex.map(one, seeds):
+            results[s] = r
     ok = True
     for s, r in results.items():
         if "error" in r:
